@@ -44,7 +44,9 @@ class ScipyMatrix(Matrix):
             raise TypeError
         if other.shape[0] != self.shape[1]:
             raise MatrixError
-        return self.core * other
+        if other.ndim <= 2:
+            return self.core * other
+        return (self.core * other.reshape(other.shape[0], numpy.prod(other.shape[1:], dtype=int))).reshape(self.shape[0], *other.shape[1:])
 
     def __neg__(self):
         return ScipyMatrix(-self.core)
